@@ -280,7 +280,7 @@ class C09(Prop):
                    'the dro front end is covered by the dro part of this check (ambiguity sets in any order, re-solve after st)']
 
     def examples(self, tier):
-        return 500 if tier == 'quick' else 10000
+        return 800 if tier == 'quick' else 16000
 
     def strategy(self, tier):
         return c09_or_dro()
